@@ -221,6 +221,7 @@ type scenario struct {
 	Uid       int      `json:"uid"`
 	TempClash bool     `json:"temp_clash"`
 	TempSeed  uint64   `json:"temp_seed"`
+	BaseLink  string   `json:"base_link,omitempty"` // the base directory is a symlink to this directory
 	Pre       []preOp  `json:"pre"`
 	Kinds     []string `json:"kinds"` // which pre-state families were drawn (for evidence)
 	// a second installation performed before the one under test (C16 sequences)
@@ -292,6 +293,21 @@ func (e *env) expectedBase(cli, path string, user bool, cwd, home string) (strin
 	}
 }
 
+// skillPaths returns the skill directory as the user names it and where its entries really live
+// (they differ when the base directory is a symlink).
+func (e *env) skillPaths(s *scenario) (byName, real string, ok bool) {
+	base, ok := e.expectedBase(s.Agent, s.Path, s.User, s.Cwd, s.Home)
+	if !ok {
+		return "", "", false
+	}
+	byName = simos.Clean(base + "/" + e.skillDir)
+	real = byName
+	if s.BaseLink != "" {
+		real = simos.Clean(s.BaseLink + "/" + e.skillDir)
+	}
+	return byName, real, true
+}
+
 var (
 	cwds  = []string{"/work/proj", "/w", "/home/u/src/app", "/", "/srv/a b/c"}
 	homes = []string{"/home/u", "/root", "/h", "/home/u/src"}
@@ -327,6 +343,12 @@ func genScenario(e *env, r *rng, id string, withFaultyPre bool) scenario {
 	}
 	skill := simos.Clean(base + "/" + e.skillDir)
 	add := func(k string) { s.Kinds = append(s.Kinds, k) }
+	if base != "/" && base != s.Cwd && base != s.Home && r.chance(1, 10) {
+		// e.g. ~/.claude/skills linked into a dotfiles checkout: installation goes through the link
+		add("base_is_symlink_to_dir")
+		s.BaseLink = "/mnt/dotfiles/skills"
+		s.Pre = append(s.Pre, preOp{Op: "mkdir", Path: s.BaseLink, Mode: 0o755}, preOp{Op: "symlink", Path: base, Data: s.BaseLink})
+	}
 	nonce := fmt.Sprintf("%x", r.next()&0xffff)
 	oldContent := func(rel string) string {
 		switch r.intn(5) {
@@ -428,9 +450,11 @@ func genScenario(e *env, r *rng, id string, withFaultyPre bool) scenario {
 			s.Pre = append(s.Pre, preOp{Op: "mkdir", Path: skill + "/references", Mode: 0o755}, preOp{Op: "chmod", Path: skill + "/references", Mode: 0o555})
 		case 3:
 			add("skill_dir_is_file")
+			s.BaseLink = ""
 			s.Pre = []preOp{{Op: "mkdir", Path: s.Cwd, Mode: 0o755}, {Op: "mkdir", Path: s.Home, Mode: 0o755}, {Op: "write", Path: skill, Data: "i am a file", Mode: 0o644}}
 		case 4:
 			add("base_is_file")
+			s.BaseLink = ""
 			s.Pre = []preOp{{Op: "mkdir", Path: s.Cwd, Mode: 0o755}, {Op: "mkdir", Path: s.Home, Mode: 0o755}, {Op: "write", Path: base, Data: "i am a file", Mode: 0o644}}
 		}
 	} else if r.chance(1, 8) {
@@ -580,11 +604,10 @@ func stepKind(d *simos.Disk, step int) string {
 
 // checkC15 judges one faulty run. baseOK tells whether the fault-free run from the same pre-state succeeded.
 func checkC15(e *env, s *scenario, pre *simos.Disk, preSnap map[string]simos.Entry, plan []simos.Fault, res runResult, baseOK bool, st *stats) (string, string) {
-	base, ok := e.expectedBase(s.Agent, s.Path, s.User, s.Cwd, s.Home)
+	_, skill, ok := e.skillPaths(s)
 	if !ok {
 		return "", ""
 	}
-	skill := simos.Clean(base + "/" + e.skillDir)
 	post := snapMap(res.disk)
 	f := plan[0]
 	kind := stepKind(res.disk, f.Step)
@@ -635,7 +658,7 @@ func checkC15(e *env, s *scenario, pre *simos.Disk, preSnap map[string]simos.Ent
 	for p := range post {
 		// when the failing step is the removal of the temporary file itself nothing can take it away
 		if isTmp(p) && kind != "unlink" {
-			if _, had := preSnap[p]; !had && !res.disk.Planted[p] {
+			if _, had := preSnap[p]; !had && !res.disk.Planted[p] && !res.disk.Planted[filepath.Base(p)] {
 				return "tmp_left_after_error:" + kind, fmt.Sprintf("temporary file %s left behind after %s failed with %s", p, kind, f.Errno)
 			}
 		}
@@ -677,7 +700,7 @@ func checkC16(e *env, s *scenario, preSnap map[string]simos.Entry, res runResult
 		}
 		return "", ""
 	}
-	skill := simos.Clean(base + "/" + e.skillDir)
+	skillName, skill, _ := e.skillPaths(s)
 	within := func(p string) bool { return p == skill || strings.HasPrefix(p, skill+"/") }
 	ancestor := func(p string) bool { return p == "/" || strings.HasPrefix(skill, strings.TrimSuffix(p, "/")+"/") }
 	// containment: whatever the outcome
@@ -699,7 +722,7 @@ func checkC16(e *env, s *scenario, preSnap map[string]simos.Entry, res runResult
 			return "removed_outside", fmt.Sprintf("%s was removed; expected destination is %s", p, skill)
 		}
 	}
-	if pb, had := preSnap[base]; had && pb.Kind != simos.KDir {
+	if pb, had := preSnap[base]; had && pb.Kind != simos.KDir && s.BaseLink == "" {
 		if res.err == nil {
 			return "base_is_file_accepted", "base path is a file and the installer reported success"
 		}
@@ -726,12 +749,12 @@ func checkC16(e *env, s *scenario, preSnap map[string]simos.Entry, res runResult
 		if !within(p) || want[p] {
 			continue
 		}
-		if _, had := preSnap[p]; !had && po.Kind != simos.KDir && !res.disk.Planted[p] {
+		if _, had := preSnap[p]; !had && po.Kind != simos.KDir && !res.disk.Planted[p] && !res.disk.Planted[filepath.Base(p)] {
 			return "extra_file", fmt.Sprintf("%s is not part of the skill tree", p)
 		}
 	}
-	if !strings.Contains(string(res.disk.StdoutBuf), skill) {
-		return "reported_path_wrong", fmt.Sprintf("success message %q does not name %s", strings.TrimSpace(string(res.disk.StdoutBuf)), skill)
+	if !strings.Contains(string(res.disk.StdoutBuf), skillName) {
+		return "reported_path_wrong", fmt.Sprintf("success message %q does not name %s", strings.TrimSpace(string(res.disk.StdoutBuf)), skillName)
 	}
 	return "", ""
 }
@@ -888,7 +911,7 @@ func main() {
 					if preKind == 0 {
 						s.Pre = []preOp{{Op: "mkdir", Path: s.Cwd, Mode: 0o755}, {Op: "mkdir", Path: s.Home, Mode: 0o755}}
 						s.Kinds = []string{"fresh", "matrix"}
-						s.Uid, s.TempClash = 0, false
+						s.Uid, s.TempClash, s.BaseLink = 0, false, ""
 					} else {
 						// regenerate the pre-state for the forced flags
 						r2 := newRng(*seed, 1616, uint64(idx))
@@ -1015,7 +1038,7 @@ func genScenarioFor(e *env, r *rng, id, cli, path string, user bool) scenario {
 		s.Pre = append(s.Pre, preOp{Op: "write", Path: base + "/other-skill/SKILL.md", Data: "unrelated", Mode: 0o600},
 			preOp{Op: "write", Path: skill + "/notes.txt", Data: "unrelated inside", Mode: 0o600},
 			preOp{Op: "write", Path: s.Cwd + "/main.go", Data: "package main", Mode: 0o644})
-		s.Uid, s.TempClash = 0, false
+		s.Uid, s.TempClash, s.BaseLink = 0, false, ""
 		return s
 	}
 }
